@@ -178,6 +178,9 @@ func workerMain(args []string) int {
 		sc.Seed = cs
 		st.Cases++
 		st.curDigest = 0
+		if sc.Family != "" && p.ID != "C08" && (p.ID != "C13" || sc.Family == "scale") {
+			st.Inc("rare_family:" + sc.Family) // how often each rare generator family was drawn
+		}
 		vs := p.Run(sc, st)
 		if i%auditStride == 0 {
 			st.Digests[strconv.Itoa(i)] = strconv.FormatUint(st.curDigest, 16)
